@@ -116,6 +116,8 @@ fn slp_cuts(out: &mut CaseOut, ctx: &Ctx, name: &str, bytes: &[u8], cuts: Vec<(u
 	let data = bytes.to_vec();
 	let only = ctx.only_sub;
 	let cuts2 = cuts.clone();
+	// what the intact file serialises to before any truncated read happened on this thread
+	let reference = common::slp_read(bytes, false, false).ok().and_then(|g| common::slp_write(&g).ok());
 	let w = watched(
 		move || {
 			let mut res = vec![];
@@ -126,6 +128,14 @@ fn slp_cuts(out: &mut CaseOut, ctx: &Ctx, name: &str, bytes: &[u8], cuts: Vec<(u
 				cur2.store(k, Relaxed);
 				let d = Arc::new(data[..*n].to_vec());
 				res.push((k, slp_cut_run(&d, *skip, *hash)));
+				// history control with content comparison right after a rejected prefix (state left
+				// behind by a failed parse may heal later, so the end-of-batch control is not enough)
+				if k % 97 == 96 && only.is_none() {
+					let now = common::slp_read(&data, false, false).ok().and_then(|g| common::slp_write(&g).ok());
+					if now != reference {
+						res.push((usize::MAX - 1 - k, SlpOutcome::Spin));
+					}
+				}
 			}
 			// history control: the intact file still reads on this thread after all the rejected prefixes
 			if only.is_none() && !cuts2.is_empty() {
@@ -143,6 +153,12 @@ fn slp_cuts(out: &mut CaseOut, ctx: &Ctx, name: &str, bytes: &[u8], cuts: Vec<(u
 	match w {
 		Watched::Done(res) => {
 			for (k, o) in res {
+				if k != usize::MAX && k > usize::MAX / 2 {
+					let at = usize::MAX - 1 - k;
+					out.evals += 1;
+					out.violate("slp-intact-read-differs-after-truncated-read", format!("[{}] right after the rejected prefix of {} bytes the intact file no longer reads to the same game (state of a failed parse leaked)", name, cuts[at].0), Some(bytes));
+					continue;
+				}
 				if k == usize::MAX {
 					match o {
 						SlpOutcome::Accepted(_) => out.count("intact_file_reads_after_rejected_prefixes", 1),
@@ -284,6 +300,10 @@ impl Monitor for C07 {
 							}
 							cur2.store(sub as usize, Relaxed);
 							res.push((n, skip, slpp_cut(&full, &hash, quirk, &bytes[..n], skip)));
+							// content-compared intact read right after a rejected prefix, now and then
+							if !skip && n % 509 == 508 && only.is_none() {
+								res.push((bytes.len(), false, slpp_cut(&full, &hash, quirk, &bytes[..], false)));
+							}
 						}
 					}
 					// history control: after all those rejected reads, the intact archive must still
